@@ -65,6 +65,9 @@ type c16Op struct {
 	F    []c16Ref `json:"f,omitempty"`
 	N    int      `json:"n,omitempty"`
 	Hard bool     `json:"hard,omitempty"`
+	// Fm (pub): the adapter method whose first call fails while the publish is processed
+	// (TopicUpdateOnMessage, MessageSave, SubsUpdate = the sender's read marks, FileLinkAttachments); "" = none
+	Fm string `json:"fm,omitempty"`
 }
 
 type c16Hist struct {
@@ -121,6 +124,9 @@ func c16HistGen(rt *rapid.T) c16Hist {
 		case "pub":
 			op.T = rapid.SampledFrom([]int{-2, 0, 0, 1, 2}).Draw(rt, "t")
 			op.F = c16GenRefs(rt, 3)
+			// a third of the publishes meet a store failure at one of the writes a publish makes
+			op.Fm = rapid.SampledFrom([]string{"", "", "", "", "", "", "", "", "SubsUpdate", "SubsUpdate", "TopicUpdateOnMessage", "MessageSave",
+				"FileLinkAttachments"}).Draw(rt, "fm")
 		case "newgrp", "acc":
 			op.F = c16GenRefs(rt, 2)
 		case "setdesc":
@@ -571,25 +577,77 @@ func (r *c16Run) step(i int, op c16Op) *kit.Viol {
 		}
 		extra, res := r.refsJSON(op.F)
 		id := w.nextID()
-		fr := w.do(r.session(op.U), `{"pub":{"id":"`+id+`","topic":"`+name+`","noecho":true,"content":"c16 message `+fmt.Sprint(i)+`"}`+extra+`}`)
-		c := wCtrl(fr, id)
-		if c == nil || c.Code < 200 || c.Code >= 300 {
-			return nil
+		content := "c16 message " + fmt.Sprint(i)
+		ss := r.session(op.U)
+		fired := false
+		if op.Fm != "" {
+			// the store fails at one of the writes the publish makes (the first call of the method)
+			mem.A.Arm(mem.Plan{FailNth: 1, FailMethod: op.Fm})
 		}
-		seq := 0
-		if p, ok := c.Params.(map[string]any); ok {
-			if f, ok := p["seq"].(float64); ok {
-				seq = int(f)
+		fr := w.do(ss, `{"pub":{"id":"`+id+`","topic":"`+name+`","noecho":true,"content":"`+content+`"}`+extra+`}`)
+		if op.Fm != "" {
+			mem.A.Disarm()
+			if fired = mem.A.Fired; fired {
+				r.cls["store-failure-at-publish:"+op.Fm] = true
+			} else {
+				r.cls["store-failure-at-publish:not-delivered"] = true
 			}
 		}
-		if seq == 0 {
-			return kit.V("pub:no-seq", "op %d: accepted publish without a seq: %s", i, wJSON(c))
+		c := wCtrl(fr, id)
+		accepted := c != nil && c.Code >= 200 && c.Code < 300
+		// Whatever the reply: a message which is in the store exists and lists its attachments; a publish
+		// which was refused and stored nothing links nothing.
+		storedSeq := 0
+		for _, row := range mem.A.Snapshot().Msgs {
+			if string(row.Content) == wJSON(content) {
+				storedSeq = row.SeqId
+			}
+		}
+		if !accepted && storedSeq == 0 {
+			if fired {
+				r.cls["store-failure-at-publish:refused,nothing-stored"] = true
+			}
+			return nil
+		}
+		seq := storedSeq
+		if accepted {
+			if p, ok := c.Params.(map[string]any); ok {
+				if f, ok := p["seq"].(float64); ok && seq == 0 {
+					seq = int(f)
+				}
+			}
+			if seq == 0 {
+				return kit.V("pub:no-seq", "op %d: accepted publish without a seq: %s", i, wJSON(c))
+			}
+		}
+		if fired && storedSeq > 0 {
+			if accepted {
+				r.cls["store-failure-at-publish:accepted,message-stored"] = true
+			} else {
+				r.cls["store-failure-at-publish:refused,message-stored"] = true
+			}
 		}
 		r.msgs[key] = append(r.msgs[key], seq)
 		h := r.m.holder(fmt.Sprintf("msg:%s:%d", key, seq))
-		r.linkAll(h, res)
+		if fired && op.Fm == "FileLinkAttachments" {
+			// The write which fails is the link itself (the message row is written already): the server
+			// logs it and accepts the publish (fix 681276e: refusing here re-issued the seq). Whether the
+			// uploads of this message are then protected is not judged: they may or may not be kept.
+			for _, x := range res {
+				if x.file >= 0 {
+					h.loose[x.file] = true
+				}
+				h.dangling = h.dangling || x.dangling
+			}
+			r.cls["store-failure-at-publish:FileLinkAttachments:the-link-write-itself-failed(not judged)"] = true
+		} else {
+			r.linkAll(h, res)
+		}
 		if len(h.strict) > 0 {
 			r.cls["linked:message"] = true
+			if fired {
+				r.cls["store-failure-at-publish:"+op.Fm+":stored-message-lists-an-upload"] = true
+			}
 		}
 	case "newgrp":
 		extra, res := r.refsJSON(op.F)
